@@ -11,3 +11,280 @@ Proof.
   intro H; inversion H; subst. repeat (apply andb_true_iff in E as [E ?]). repeat split; auto; lia.
 Qed.
 
+(* ---- string_to_int ---- *)
+Lemma digits_value_nonneg ds : 0 <= digits_value ds.
+Proof. unfold digits_value. lia. Qed.
+
+Theorem string_to_int_range s v : string_to_int s = Some v -> 0 <= v <= INT_MAX.
+Proof.
+  unfold string_to_int.
+  match goal with |- context [let '(a, b) := ?p in _] => destruct p as [neg s2] end.
+  destruct (take_while is_digit s2) as [|d ds]; [discriminate|].
+  destruct (drop_while is_digit s2); [|discriminate].
+  pose proof (digits_value_nonneg (d :: ds)) as Hnn.
+  destruct neg.
+  - destruct (digits_value (d :: ds) =? 0); [|discriminate].
+    intro H; inversion H; subst. unfold INT_MAX. lia.
+  - destruct (digits_value (d :: ds) <=? INT_MAX) eqn:E; [|discriminate].
+    intro H; inversion H; subst. apply Z.leb_le in E. lia.
+Qed.
+
+(* ---- decomposition of [effective] ---- *)
+Lemma verify_inv w s2 s : verify w s2 = Run s -> s = s2.
+Proof.
+  unfold verify.
+  destruct (known_rcmd w (rcmd s2) && (1 <=? fanout s2) && (0 <=? ctimeout s2) && (0 <=? utimeout s2));
+    [|discriminate].
+  intro H; inversion H; reflexivity.
+Qed.
+
+Lemma effective_inv w e os s : effective w e os = Run s ->
+  exists s1, apply_env w e (defaults w) = Run s1 /\ apply_opts w s1 os = Run s.
+Proof.
+  unfold effective. destruct (apply_env w e (defaults w)) as [s1|]; [|discriminate].
+  destruct (apply_opts w s1 os) as [s2|] eqn:E; [|discriminate].
+  intro H. apply verify_inv in H. subst. exists s1. split; auto.
+Qed.
+
+(* ---- the environment step ---- *)
+Lemma apply_env_inv w e s0 s1 : apply_env w e s0 = Run s1 ->
+  match e_fanout e with Some v => string_to_int v = Some (fanout s1) | None => fanout s1 = fanout s0 end /\
+  match e_ctimeout e with Some v => string_to_int v = Some (ctimeout s1) | None => ctimeout s1 = ctimeout s0 end /\
+  match e_utimeout e with Some v => string_to_int v = Some (utimeout s1) | None => utimeout s1 = utimeout s0 end /\
+  ruser s1 = ruser s0 /\
+  rcmd s1 = match e_rcmd e with Some v => v | None => rcmd s0 end /\
+  misc s1 = match e_misc e with Some v => Some v | None => misc s0 end /\
+  rpath s1 = match e_rpath e with Some v => if is_pcp w then v else rpath s0 | None => rpath s0 end.
+Proof.
+  unfold apply_env. intro H.
+  destruct (match e_fanout e with None => Some (fanout s0) | Some v => string_to_int v end) as [f|] eqn:Ef;
+    [|discriminate].
+  destruct (match e_ctimeout e with None => Some (ctimeout s0) | Some v => string_to_int v end) as [ct|] eqn:Ect;
+    [|discriminate].
+  destruct (match e_utimeout e with None => Some (utimeout s0) | Some v => string_to_int v end) as [ut|] eqn:Eut;
+    [|discriminate].
+  cbn [bindo] in H. inversion H; subst; clear H. cbn [fanout ctimeout utimeout ruser rcmd misc rpath].
+  repeat split.
+  - destruct (e_fanout e); congruence.
+  - destruct (e_ctimeout e); congruence.
+  - destruct (e_utimeout e); congruence.
+Qed.
+
+Lemma apply_env_refused_fanout w e s0 v : e_fanout e = Some v -> string_to_int v = None -> apply_env w e s0 = Refused.
+Proof. intros He Hv. unfold apply_env. rewrite He, Hv. reflexivity. Qed.
+
+Lemma apply_env_bad w e s0 v :
+  (e_fanout e = Some v \/ e_ctimeout e = Some v \/ e_utimeout e = Some v) -> string_to_int v = None ->
+  apply_env w e s0 = Refused.
+Proof.
+  intros He Hv. destruct (apply_env w e s0) as [s1|] eqn:E; [|reflexivity]. exfalso.
+  apply apply_env_inv in E. destruct E as (Hf & Hc & Hu & _).
+  destruct He as [He|[He|He]]; rewrite He in *; congruence.
+Qed.
+
+(* ---- one option ---- *)
+Lemma apply_opts_cons w s0 o r s : apply_opts w s0 (o :: r) = Run s ->
+  exists s', apply_opt w s0 o = Run s' /\ apply_opts w s' r = Run s.
+Proof.
+  cbn [apply_opts]. destruct (apply_opt w s0 o) as [s'|]; [|discriminate]. eauto.
+Qed.
+
+(* a field [fld] that is set (according to [R]) by the options that [sel] selects and left
+   alone by all others is determined by the last selected option *)
+Lemma apply_opts_field {A B} (w : world) (fld : settings -> A) (sel : optv -> option B) (R : B -> A -> Prop) :
+  (forall s0 o s', apply_opt w s0 o = Run s' ->
+     match sel o with Some v => R v (fld s') | None => fld s' = fld s0 end) ->
+  forall os s0 s, apply_opts w s0 os = Run s ->
+     match last_opt sel os with Some v => R v (fld s) | None => fld s = fld s0 end.
+Proof.
+  intros Hstep. induction os as [|o r IH]; intros s0 s H.
+  - cbn in H. inversion H; subst. reflexivity.
+  - apply apply_opts_cons in H as (s' & H1 & H2).
+    apply IH in H2. apply Hstep in H1. cbn [last_opt].
+    destruct (last_opt sel r) as [v|]; [exact H2|].
+    destruct (sel o) as [v|]; [|congruence].
+    rewrite H2. exact H1.
+Qed.
+
+Ltac step_tac :=
+  intros s0_ o_ s_ H; destruct o_; cbn [apply_opt] in H;
+  repeat match type of H with
+         | bindo ?x _ = _ => let E := fresh "E" in destruct x eqn:E; cbn [bindo] in H
+         | (if ?c then _ else _) = _ => destruct c
+         end;
+  try discriminate; inversion H; subst;
+  cbn [sel_f sel_t sel_u sel_l sel_R sel_M sel_e fanout ctimeout utimeout ruser rcmd misc rpath];
+  auto.
+
+Lemma opts_fanout w os s0 s : apply_opts w s0 os = Run s ->
+  match last_opt sel_f os with Some v => string_to_int v = Some (fanout s) | None => fanout s = fanout s0 end.
+Proof.
+  revert os s0 s. apply (apply_opts_field w fanout sel_f (fun v f => string_to_int v = Some f)). step_tac.
+Qed.
+
+Lemma opts_ctimeout w os s0 s : apply_opts w s0 os = Run s ->
+  match last_opt sel_t os with Some v => ctimeout s = atoi v | None => ctimeout s = ctimeout s0 end.
+Proof.
+  revert os s0 s. apply (apply_opts_field w ctimeout sel_t (fun v c => c = atoi v)). step_tac.
+Qed.
+
+Lemma opts_utimeout w os s0 s : apply_opts w s0 os = Run s ->
+  match last_opt sel_u os with Some v => utimeout s = atoi v | None => utimeout s = utimeout s0 end.
+Proof.
+  revert os s0 s. apply (apply_opts_field w utimeout sel_u (fun v c => c = atoi v)). step_tac.
+Qed.
+
+Lemma opts_ruser w os s0 s : apply_opts w s0 os = Run s ->
+  match last_opt sel_l os with Some v => ruser s = v | None => ruser s = ruser s0 end.
+Proof.
+  revert os s0 s. apply (apply_opts_field w ruser sel_l (fun v c => c = v)). step_tac.
+Qed.
+
+Lemma opts_rcmd w os s0 s : apply_opts w s0 os = Run s ->
+  match last_opt sel_R os with Some v => rcmd s = v | None => rcmd s = rcmd s0 end.
+Proof.
+  revert os s0 s. apply (apply_opts_field w rcmd sel_R (fun v c => c = v)). step_tac.
+Qed.
+
+Lemma opts_misc w os s0 s : apply_opts w s0 os = Run s ->
+  match last_opt sel_M os with Some v => misc s = Some v | None => misc s = misc s0 end.
+Proof.
+  revert os s0 s. apply (apply_opts_field w misc sel_M (fun v c => c = Some v)). step_tac.
+Qed.
+
+Lemma opts_rpath w os s0 s : apply_opts w s0 os = Run s ->
+  match last_opt sel_e os with Some v => rpath s = v | None => rpath s = rpath s0 end.
+Proof.
+  revert os s0 s. apply (apply_opts_field w rpath sel_e (fun v c => c = v)). step_tac.
+Qed.
+
+(* no option of a run was refused *)
+Lemma opts_all_accepted w os : forall s0 s, apply_opts w s0 os = Run s ->
+  forall o, In o os -> exists s1 s2, apply_opt w s1 o = Run s2.
+Proof.
+  induction os as [|o r IH]; intros s0 s H o' Hin; [contradiction|].
+  apply apply_opts_cons in H as (s' & H1 & H2). destruct Hin as [->|Hin]; eauto.
+Qed.
+
+Lemma opts_user_length w os s0 s v : apply_opts w s0 os = Run s -> In (Ol v) os -> (length v <= name_max w)%nat.
+Proof.
+  intros H Hin. destruct (opts_all_accepted w os s0 s H _ Hin) as (s1 & s2 & E).
+  cbn [apply_opt] in E. destruct (name_max w <? length v)%nat eqn:L; [discriminate|].
+  apply Nat.ltb_ge in L. exact L.
+Qed.
+
+Lemma opts_fanout_ok w os s0 s v : apply_opts w s0 os = Run s -> In (Of v) os -> string_to_int v <> None.
+Proof.
+  intros H Hin. destruct (opts_all_accepted w os s0 s H _ Hin) as (s1 & s2 & E).
+  cbn [apply_opt] in E. destruct (string_to_int v); [discriminate|discriminate].
+Qed.
+
+Lemma opts_rpath_pcp w os s0 s v : apply_opts w s0 os = Run s -> In (Oe v) os -> is_pcp w = true.
+Proof.
+  intros H Hin. destruct (opts_all_accepted w os s0 s H _ Hin) as (s1 & s2 & E).
+  cbn [apply_opt] in E. destruct (is_pcp w); [reflexivity|discriminate].
+Qed.
+
+(* ---- precedence ---- *)
+Theorem precedence_fanout : forall w e os s, effective w e os = Run s ->
+  match last_opt sel_f os with
+  | Some v => string_to_int v = Some (fanout s)
+  | None => match e_fanout e with Some v => string_to_int v = Some (fanout s) | None => fanout s = Z.of_N DFLT_FANOUT end
+  end.
+Proof.
+  intros w e os s H. apply effective_inv in H as (s1 & He & Ho).
+  apply apply_env_inv in He as (Hf & _). apply opts_fanout in Ho.
+  destruct (last_opt sel_f os) as [v|]; [exact Ho|].
+  rewrite Ho. exact Hf.
+Qed.
+
+Theorem precedence_timeouts : forall w e os s, effective w e os = Run s ->
+  match last_opt sel_t os with
+  | Some v => ctimeout s = atoi v
+  | None => match e_ctimeout e with Some v => string_to_int v = Some (ctimeout s) | None => ctimeout s = Z.of_N CONNECT_TIMEOUT end
+  end /\
+  match last_opt sel_u os with
+  | Some v => utimeout s = atoi v
+  | None => match e_utimeout e with Some v => string_to_int v = Some (utimeout s) | None => utimeout s = 0 end
+  end.
+Proof.
+  intros w e os s H. apply effective_inv in H as (s1 & He & Ho).
+  apply apply_env_inv in He as (_ & Hc & Hu & _).
+  pose proof (opts_ctimeout _ _ _ _ Ho) as Oc. pose proof (opts_utimeout _ _ _ _ Ho) as Ou_.
+  split.
+  - destruct (last_opt sel_t os) as [v|]; [exact Oc|]. rewrite Oc. exact Hc.
+  - destruct (last_opt sel_u os) as [v|]; [exact Ou_|]. rewrite Ou_. exact Hu.
+Qed.
+
+Theorem precedence_strings : forall w e os s, effective w e os = Run s ->
+  ruser s = pick (last_opt sel_l os) None (login w) /\
+  rcmd s = pick (last_opt sel_R os) (e_rcmd e) (dflt_rcmd w) /\
+  misc s = match last_opt sel_M os with Some v => Some v | None => e_misc e end /\
+  rpath s = pick (last_opt sel_e os) (if is_pcp w then e_rpath e else None) (self_path w).
+Proof.
+  intros w e os s H. apply effective_inv in H as (s1 & He & Ho).
+  apply apply_env_inv in He as (_ & _ & _ & Hl & HR & HM & Hp).
+  cbn [defaults ruser rcmd misc rpath] in Hl, HR, HM, Hp.
+  pose proof (opts_ruser _ _ _ _ Ho) as Ol_. pose proof (opts_rcmd _ _ _ _ Ho) as OR_.
+  pose proof (opts_misc _ _ _ _ Ho) as OM_. pose proof (opts_rpath _ _ _ _ Ho) as Oe_.
+  unfold pick. repeat split.
+  - destruct (last_opt sel_l os); congruence.
+  - destruct (last_opt sel_R os); [exact OR_|]. rewrite OR_, HR. reflexivity.
+  - destruct (last_opt sel_M os); [exact OM_|]. rewrite OM_, HM. destruct (e_misc e); reflexivity.
+  - destruct (last_opt sel_e os); [exact Oe_|]. rewrite Oe_, Hp.
+    destruct (e_rpath e), (is_pcp w); reflexivity.
+Qed.
+
+(* ---- refusals ---- *)
+Theorem bad_fanout_refused : forall w e os v, last_opt sel_f os = Some v ->
+  (string_to_int v = None \/ string_to_int v = Some 0) -> effective w e os = Refused.
+Proof.
+  intros w e os v Hl Hv. destruct (effective w e os) as [s|] eqn:E; [|reflexivity]. exfalso.
+  pose proof (effective_valid _ _ _ _ E) as (Hf & _).
+  pose proof (precedence_fanout _ _ _ _ E) as P. rewrite Hl in P.
+  destruct Hv as [Hv|Hv]; rewrite Hv in P; [discriminate|]. inversion P. lia.
+Qed.
+
+Theorem bad_env_refused : forall w e os,
+  (exists v, (e_fanout e = Some v \/ e_ctimeout e = Some v \/ e_utimeout e = Some v) /\ string_to_int v = None) ->
+  effective w e os = Refused.
+Proof.
+  intros w e os (v & He & Hv). unfold effective.
+  rewrite (apply_env_bad w e (defaults w) v He Hv). reflexivity.
+Qed.
+
+Theorem zero_env_fanout_refused : forall w e os,
+  e_fanout e = Some [48%N] -> last_opt sel_f os = None -> effective w e os = Refused.
+Proof.
+  intros w e os He Hl. destruct (effective w e os) as [s|] eqn:E; [|reflexivity]. exfalso.
+  pose proof (effective_valid _ _ _ _ E) as (Hf & _).
+  pose proof (precedence_fanout _ _ _ _ E) as P. rewrite Hl, He in P.
+  assert (Z0 : string_to_int [48%N] = Some 0) by (vm_compute; reflexivity).
+  rewrite Z0 in P. inversion P. lia.
+Qed.
+
+Theorem negative_timeout_refused : forall w e os v,
+  (last_opt sel_t os = Some v \/ last_opt sel_u os = Some v) -> atoi v < 0 -> effective w e os = Refused.
+Proof.
+  intros w e os v Hl Hv. destruct (effective w e os) as [s|] eqn:E; [|reflexivity]. exfalso.
+  pose proof (effective_valid _ _ _ _ E) as (_ & Hc & Hu & _).
+  pose proof (precedence_timeouts _ _ _ _ E) as (Pc & Pu).
+  destruct Hl as [Hl|Hl]; [rewrite Hl in Pc|rewrite Hl in Pu]; lia.
+Qed.
+
+Theorem long_user_refused : forall w e os v,
+  In (Ol v) os -> (name_max w < length v)%nat -> effective w e os = Refused.
+Proof.
+  intros w e os v Hin Hlen. destruct (effective w e os) as [s|] eqn:E; [|reflexivity]. exfalso.
+  apply effective_inv in E as (s1 & _ & Ho).
+  pose proof (opts_user_length _ _ _ _ _ Ho Hin). lia.
+Qed.
+
+Theorem unknown_transport_refused : forall w e os s, effective w e os = Run s ->
+  known_rcmd w (pick (last_opt sel_R os) (e_rcmd e) (dflt_rcmd w)) = true.
+Proof.
+  intros w e os s E.
+  pose proof (effective_valid _ _ _ _ E) as (_ & _ & _ & Hk).
+  pose proof (precedence_strings _ _ _ _ E) as (_ & HR & _).
+  rewrite <- HR. exact Hk.
+Qed.
